@@ -219,145 +219,164 @@ def unitKeywords : List String :=
   ["year", "month", "week", "day", "hour", "minute", "second", "millisecond",
    "years", "months", "weeks", "days", "hours", "minutes", "seconds", "milliseconds"]
 
-mutual
-  /-- the whole `expression` rule, level by level -/
-  def parseLevels : Nat → List (List String × Bool) → List Tok → Option (Ex × List Tok)
-    | 0, _, _ => none
-    | fuel + 1, [], ts => parseUnary fuel ts
-    | fuel + 1, lvl :: higher, ts =>
-      match parseLevels fuel higher ts with
+abbrev Parser := List Tok → Option (Ex × List Tok)
+
+/-- qualifiedIdentifier: identifier ('.' identifier)*; k bounds the number of components -/
+def qualified : Nat → List Tok → Option (List String × List Tok)
+  | 0, _ => none
+  | k + 1, ts =>
+    match ts with
+    | t :: r =>
+      match isIdentTok t with
       | none => none
-      | some (x, r) => loopLevel fuel lvl higher x r
-
-  def loopLevel : Nat → (List String × Bool) → List (List String × Bool) → Ex → List Tok → Option (Ex × List Tok)
-    | 0, _, _, _, _ => none
-    | fuel + 1, lvl, higher, left, ts =>
-      match ts with
-      | .kw o :: r =>
-        if lvl.1.contains o then
-          if lvl.2 then
-            -- type level: expression ('is' | 'as') typeSpecifier
-            match parseQualified fuel r with
-            | some (q, r') => loopLevel fuel lvl higher (.typ o left q) r'
+      | some n =>
+        match r with
+        | .kw "." :: t2 :: r2 =>
+          if (isIdentTok t2).isSome then
+            match qualified k (t2 :: r2) with
+            | some (q, r3) => some (n :: q, r3)
             | none => none
-          else
-            match parseLevels fuel higher r with
-            | some (x, r') => loopLevel fuel lvl higher (.bin o left x) r'
-            | none => none
-        else some (left, ts)
-      | _ => some (left, ts)
+          else some ([n], r)
+        | _ => some ([n], r)
+    | [] => none
 
-  def parseQualified : Nat → List Tok → Option (List String × List Tok)
-    | 0, _ => none
-    | fuel + 1, ts =>
-      match ts with
-      | t :: r =>
-        match isIdentTok t with
-        | none => none
-        | some n =>
-          match r with
-          | .kw "." :: r1 =>
-            (match r1 with
-            | t2 :: _ =>
-              if (isIdentTok t2).isSome then
-                match parseQualified fuel r1 with
-                | some (q, r2) => some (n :: q, r2)
-                | none => none
-              else some ([n], r)
-            | [] => some ([n], r))
-          | _ => some ([n], r)
-      | [] => none
+/-- what follows an operator token at some level: a parser for the right-hand side that yields how
+    to extend the left operand -/
+abbrev Step := String → Option (List Tok → Option ((Ex → Ex) × List Tok))
 
-  /-- polarity: ('+' | '-') expression, binding tighter than every binary operator -/
-  def parseUnary : Nat → List Tok → Option (Ex × List Tok)
-    | 0, _ => none
-    | fuel + 1, ts =>
-      match ts with
-      | .kw "+" :: r => (parseUnary fuel r).map fun (x, r') => (.pol "+" x, r')
-      | .kw "-" :: r => (parseUnary fuel r).map fun (x, r') => (.pol "-" x, r')
-      | _ =>
-        match parseTerm fuel ts with
-        | none => none
-        | some (x, r) => loopPostfix fuel x r
-
-  /-- postfix: '.' invocation | '[' expression ']' -/
-  def loopPostfix : Nat → Ex → List Tok → Option (Ex × List Tok)
-    | 0, _, _ => none
-    | fuel + 1, left, ts =>
-      match ts with
-      | .kw "." :: r =>
-        (match parseInvocation fuel r with
-        | some (inv, r') => loopPostfix fuel (.dot left inv) r'
+/-- the `(op rhs)*` loop shared by every level; k bounds the iterations -/
+def loopG (step : Step) : Nat → Ex → List Tok → Option (Ex × List Tok)
+  | 0, left, ts =>
+    (match ts with
+    | .kw o :: _ => if (step o).isSome then none else some (left, ts)
+    | _ => some (left, ts))
+  | k + 1, left, ts =>
+    match ts with
+    | .kw o :: r =>
+      (match step o with
+      | some rhs =>
+        (match rhs r with
+        | some (build, r') => loopG step k (build left) r'
         | none => none)
-      | .kw "[" :: r =>
-        (match parseLevels fuel binLevels r with
-        | some (i, .kw "]" :: r') => loopPostfix fuel (.idx left i) r'
+      | none => some (left, ts))
+    | _ => some (left, ts)
+
+/-- one level: operand (op rhs)*, left-associative -/
+def levelG (step : Step) (next : Parser) : Parser := fun ts =>
+  match next ts with
+  | some (x, r) => loopG step r.length x r
+  | none => none
+
+def binRhs (o : String) (next : Parser) : List Tok → Option ((Ex → Ex) × List Tok) := fun r =>
+  (next r).map fun p => (fun left => .bin o left p.1, p.2)
+
+def typRhs (o : String) : List Tok → Option ((Ex → Ex) × List Tok) := fun r =>
+  (qualified r.length r).map fun p => (fun left => .typ o left p.1, p.2)
+
+/-- binary level: the right-hand side is an operand of the next tighter level -/
+def stepBin (ops : List String) (next : Parser) : Step := fun o =>
+  if ops.contains o then some (binRhs o next) else none
+
+/-- type level: the right-hand side is a qualified identifier -/
+def stepTyp (ops : List String) : Step := fun o =>
+  if ops.contains o then some (typRhs o) else none
+
+def levelBin (ops : List String) (next : Parser) : Parser := levelG (stepBin ops next) next
+def levelTyp (ops : List String) (next : Parser) : Parser := levelG (stepTyp ops) next
+
+/-- polarity: ('+' | '-')* operand; k bounds the number of signs -/
+def unary (post : Parser) : Nat → Parser
+  | 0 => fun _ => none
+  | k + 1 => fun ts =>
+    match ts with
+    | .kw "+" :: r => (unary post k r).map fun p => (.pol "+" p.1, p.2)
+    | .kw "-" :: r => (unary post k r).map fun p => (.pol "-" p.1, p.2)
+    | _ => post ts
+
+/-- expression (',' expression)* -/
+def argsP (e : Parser) : Nat → List Tok → Option (Ex × List Tok)
+  | 0, _ => none
+  | k + 1, ts =>
+    match e ts with
+    | none => none
+    | some (x, .kw "," :: r) =>
+      (match argsP e k r with
+      | some (rest, r') => some (.argCons x rest, r')
+      | none => none)
+    | some (x, r) => some (.argCons x .argNil, r)
+
+/-- invocation: identifier | function | $this | $index | $total -/
+def invocationP (e : Parser) : Parser := fun ts =>
+  match ts with
+  | .kw "$this" :: r => some (.special "$this", r)
+  | .kw "$index" :: r => some (.special "$index", r)
+  | .kw "$total" :: r => some (.special "$total", r)
+  | t :: r =>
+    match isIdentTok t with
+    | none => none
+    | some n =>
+      match r with
+      | .kw "(" :: .kw ")" :: r2 => some (.call n .argNil, r2)
+      | .kw "(" :: r1 =>
+        (match argsP e r1.length r1 with
+        | some (as, .kw ")" :: r2) => some (.call n as, r2)
         | _ => none)
-      | _ => some (left, ts)
+      | _ => some (.member n, r)
+  | [] => none
 
-  def parseInvocation : Nat → List Tok → Option (Ex × List Tok)
-    | 0, _ => none
-    | fuel + 1, ts =>
-      match ts with
-      | .kw "$this" :: r => some (.special "$this", r)
-      | .kw "$index" :: r => some (.special "$index", r)
-      | .kw "$total" :: r => some (.special "$total", r)
-      | t :: r =>
-        match isIdentTok t with
-        | none => none
-        | some n =>
-          match r with
-          | .kw "(" :: r1 =>
-            (match r1 with
-            | .kw ")" :: r2 => some (.call n .argNil, r2)
-            | _ =>
-              match parseArgs fuel r1 with
-              | some (as, .kw ")" :: r2) => some (.call n as, r2)
-              | _ => none)
-          | _ => some (.member n, r)
-      | [] => none
+def termP (e : Parser) : Parser := fun ts =>
+  match ts with
+  | .kw "(" :: r =>
+    (match e r with
+    | some (x, .kw ")" :: r') => some (x, r')
+    | _ => none)
+  | .kw "{" :: .kw "}" :: r => some (.lit (.kw "{}"), r)
+  | .kw "true" :: r => some (.lit (.kw "true"), r)
+  | .kw "false" :: r => some (.lit (.kw "false"), r)
+  | .str s :: r => some (.lit (.str s), r)
+  | .temporal s :: r => some (.lit (.temporal s), r)
+  | .num n :: r =>
+    -- quantity: NUMBER unit?
+    (match r with
+    | .kw u :: r' => if unitKeywords.contains u then some (.qty n (.kw u), r') else some (.lit (.num n), r)
+    | .str u :: r' => some (.qty n (.str u), r')
+    | _ => some (.lit (.num n), r))
+  | .kw "%" :: t :: r =>
+    (match isIdentTok t, t with
+    | some n, _ => some (.ext n, r)
+    | none, .str s => some (.ext ("'" ++ s ++ "'"), r)
+    | none, _ => none)
+  | _ => invocationP e ts
 
-  def parseArgs : Nat → List Tok → Option (Ex × List Tok)
-    | 0, _ => none
-    | fuel + 1, ts =>
-      match parseLevels fuel binLevels ts with
-      | none => none
-      | some (e, .kw "," :: r) =>
-        (match parseArgs fuel r with
-        | some (rest, r') => some (.argCons e rest, r')
-        | none => none)
-      | some (e, r) => some (.argCons e .argNil, r)
+def dotRhs (e : Parser) : List Tok → Option ((Ex → Ex) × List Tok) := fun r =>
+  (invocationP e r).map fun p => (fun left => .dot left p.1, p.2)
 
-  def parseTerm : Nat → List Tok → Option (Ex × List Tok)
-    | 0, _ => none
-    | fuel + 1, ts =>
-      match ts with
-      | .kw "(" :: r =>
-        (match parseLevels fuel binLevels r with
-        | some (e, .kw ")" :: r') => some (e, r')
-        | _ => none)
-      | .kw "{" :: .kw "}" :: r => some (.lit (.kw "{}"), r)
-      | .kw "true" :: r => some (.lit (.kw "true"), r)
-      | .kw "false" :: r => some (.lit (.kw "false"), r)
-      | .str s :: r => some (.lit (.str s), r)
-      | .temporal s :: r => some (.lit (.temporal s), r)
-      | .num n :: r =>
-        -- quantity: NUMBER unit?
-        (match r with
-        | .kw u :: r' => if unitKeywords.contains u then some (.qty n (.kw u), r') else some (.lit (.num n), r)
-        | .str u :: r' => some (.qty n (.str u), r')
-        | _ => some (.lit (.num n), r))
-      | .kw "%" :: t :: r =>
-        (match isIdentTok t, t with
-        | some n, _ => some (.ext n, r)
-        | none, .str s => some (.ext ("'" ++ s ++ "'"), r)
-        | none, _ => none)
-      | _ => parseInvocation fuel ts
-end
+def idxRhs (e : Parser) : List Tok → Option ((Ex → Ex) × List Tok) := fun r =>
+  match e r with
+  | some (i, .kw "]" :: r') => some (fun left => .idx left i, r')
+  | _ => none
+
+/-- postfix level: '.' invocation | '[' expression ']' -/
+def stepPostfix (e : Parser) : Step := fun o =>
+  if o == "." then some (dotRhs e) else if o == "[" then some (idxRhs e) else none
+
+def postfixP (e : Parser) : Parser := levelG (stepPostfix e) (termP e)
+
+def unaryP (e : Parser) : Parser := fun ts => unary (postfixP e) ts.length ts
+
+/-- the levels above a nested-expression parser: binary levels (loosest outermost) around polarity
+    around postfix around term -/
+def levelsP (lvls : List (List String × Bool)) (e : Parser) : Parser :=
+  lvls.foldr (fun lvl next => if lvl.2 then levelTyp lvl.1 next else levelBin lvl.1 next) (unaryP e)
+
+/-- the `expression` rule; the fuel bounds the nesting of parentheses, indexers and arguments -/
+def exprP : Nat → Parser
+  | 0 => fun _ => none
+  | f + 1 => levelsP binLevels (exprP f)
 
 /-- `prog : expression EOF` -/
 def parseProg (ts : List Tok) : Option Ex :=
-  match parseLevels (4 * ts.length + 40) binLevels ts with
+  match exprP (2 * ts.length + 2) ts with
   | some (e, []) => some e
   | _ => none
 
